@@ -176,6 +176,7 @@ def run(res, proof):
             res.violation('ComplexS-views:raises:' + type(e).__name__, {'op': ['ComplexS.views', ' '.join(names), s]}, type(e).__name__, 'views computed')
     clear_singletons(ComplexS)
     impl = [cu.impl_op(cux, op) for op in ops]
+    cu.rerun_sample(res, 'complex_utils', ops, impl, lambda op: cu.impl_op(cux, op), rng)
     lines = ['\t'.join(op) for op in ops]
     try:
         model = core.run_driver(lines)
